@@ -3,7 +3,7 @@
 (* reader module,                                                                                *)
 (*   [slots |-> <<[n, ta, tb |-> [pythonpath |-> t, imports_map |-> t, pickled |-> t]]>>,          *)
 (*    errs |-> [cfg |-> <<error names of B's analysis>>]]                                         *)
-(* judged by CaseFails; a case with fam = "dag" | "gen" is one WORLD of upstream modules           *)
+(* judged by CaseFails; a case with fam = "dag" | "gen" | "nest" is one WORLD of upstream modules           *)
 (*   [w |-> the world as StubWorld.tla exported it, reads |-> the reads it derived,                *)
 (*    decls |-> the declarations the real analyses of the upstream modules inferred,              *)
 (*    seen |-> [cfg |-> <<B's type of read j>>], errs]                                             *)
@@ -15,16 +15,19 @@ Cases == JsonDeserialize(IOEnv.TRACE_FILE)
 VARIABLE i
 TInit == i = 1 /\ TLCSet(1, FALSE)
 TNext == /\ i <= Len(Cases) /\ i' = i + 1 /\ (i' > Len(Cases) => TLCSet(1, TRUE))
-IsWorld(c) == c.fam \in {"dag", "gen"}
+IsWorld(c) == c.fam \in {"dag", "gen", "nest"}
 (* fam = "uperr": an upstream module of a world (itself a reader of the earlier modules' stubs)   *)
 (* was analysed with errors, errs |-> [module |-> <<error names>>]                                *)
 Fails(c) == IF IsWorld(c) THEN WorldFails(c) ELSE IF c.fam = "uperr" THEN ErrFails(c) ELSE CaseFails(c)
 Exp(c) == IF IsWorld(c) THEN [j \in DOMAIN c.reads |-> PathType(c.decls, c.reads[j])] ELSE <<>>
 Judged(c) == {j \in DOMAIN c.reads : PathType(c.decls, c.reads[j])[1] \notin {"unknown", "any"}}
+(* (vacuity guard of the family of nested classes: judged reads that go through a nested class)    *)
+Nested(c) == {j \in Judged(c) : ThroughNested(c.decls, c.reads[j])}
 Ok == i <= Len(Cases) =>
         LET c == Cases[i]
             f == Fails(c) IN
-          /\ (~IsWorld(c) \/ PrintT(<<"STAT", ToJson([i |-> i, judged |-> Cardinality(Judged(c))])>>))
+          /\ (~IsWorld(c) \/ PrintT(<<"STAT", ToJson([i |-> i, judged |-> Cardinality(Judged(c)),
+                                                   nested |-> Cardinality(Nested(c))])>>))
           /\ (f = {} \/ PrintT(<<"BAD", ToJson([i |-> i, fails |-> f, exp |-> Exp(c)])>>))
 Done == TLCGet(1)
 =============================================================================
